@@ -131,6 +131,7 @@ CanonC(t, st) ==
     [] t.k = "IntPos"   -> Leaf("int", t.s)
     [] t.k = "IntNeg"   -> N("neg", "-", <<Leaf("int", t.s)>>)
     [] t.k = "Complex"  -> N("bin", "+", <<C(t.a[1]), N("bin", "*", <<Leaf("sym", "I"), C(t.a[2])>>)>>)
+    [] t.k = "MultiIndex" -> C(t.a[1])                       \* means its flattened index
     [] t.k = "Neg"      -> N("neg", "-", Cs)
     [] t.k = "Not"      -> N("not", "!", Cs)
     [] t.k \in BinKinds -> N("bin", COp[t.k], Cs)
@@ -158,6 +159,7 @@ CanonPy(t, st) ==
          IF t.s = "pure-imaginary" THEN (IF PyIsNeg(im) THEN N("neg", "-", <<imag>>) ELSE imag)
          ELSE N("bin", IF PyIsNeg(im) THEN "-" ELSE "+",
                 <<IF PyIsNeg(re) THEN N("neg", "-", <<PyMag(re)>>) ELSE PyMag(re), imag>>)
+    [] t.k = "MultiIndex" -> C(t.a[1])                       \* means its flattened index
     [] t.k = "Neg"      -> N("neg", "-", Cs)
     [] t.k = "Not"      -> N("not", "not", Cs)
     [] t.k \in BinKinds -> N("bin", PyOp[t.k], Cs)
@@ -274,6 +276,7 @@ FormatC(t) ==
     [] t.k = "IntPos"   -> <<Tk("int", t.s)>>
     [] t.k = "IntNeg"   -> <<Opr("-"), Tk("int", t.s)>>
     [] t.k = "Complex"  -> Paren(Fs[1] \o <<Opr("+"), Tk("id", "I"), Opr("*")>> \o Fs[2])
+    [] t.k = "MultiIndex" -> FormatC(t.a[1])                 \* printed as its flattened index, with the precedence of MultiIndex
     [] t.k = "Neg"      -> CGlueMinus(Ws[1])
     [] t.k = "Not"      -> <<Opr("!")>> \o Ws[1]
     [] t.k \in BinKinds -> Ws[1] \o <<Opr(COp[t.k])>> \o Ws[2]
@@ -297,6 +300,7 @@ FormatPy(t) ==
     [] t.k = "IntNeg"   -> <<Opr("-"), Tk("int", t.s)>>
     [] t.k = "Complex"  -> Paren((IF PyIsNeg(t.a[1]) THEN <<Opr("-")>> ELSE <<>>) \o <<Tk("flt", t.a[1].s)>>
                                  \o <<Opr(IF PyIsNeg(t.a[2]) THEN "-" ELSE "+"), Tk("imag", t.a[2].s)>>)
+    [] t.k = "MultiIndex" -> FormatPy(t.a[1])
     [] t.k = "Neg"      -> <<Opr("-")>> \o Ws[1]
     [] t.k = "Not"      -> <<Tk("kw", "not")>> \o Ws[1]
     [] t.k \in BinKinds -> Ws[1] \o <<PyTok(PyOp[t.k])>> \o Ws[2]
@@ -394,18 +398,32 @@ CondNests ==
                 Mk("And", "", <<Mk("Or", "", <<c1, c2>>, "BOOL"), Mk("Not", "", <<Mk("And", "", <<c1, c2>>, "BOOL")>>, "BOOL")>>, "BOOL")} IN
   {Mk("Conditional", "", <<c, t, f>>, "REAL") : <<c, t, f>> \in conds \X {Sym("x", "REAL"), inner} \X {Sym("y", "REAL"), inner}}
 
-\* ArrayAccess through a MultiIndex (symbols then sizes in `a`); the formatter prints the MultiIndex's
-\* global_index, so these are realised and judged on the real objects only (not part of the design check)
-MI(syms, sizes) == Mk("MultiIndex", "", syms \o sizes, "INT")
+\* MultiIndex: ONE operand node [k = "MultiIndex", a = <<flattened index, symbols, sizes>>] whose meaning is its
+\* flattened (row-major) index a[1] - both formatters print exactly that expression in its place.  In enumerated trees
+\* a[1] is the reference  sum_k stride_k * symbol_k  (strides written out, they are products of the later sizes);
+\* in trees exported from real objects it is the real MultiIndex.global_index (whose value C17 checks).
 IntL(n) == Mk("IntPos", n, <<>>, "INT")
-MultiIdxTrees ==
-  {Mk("ArrayAccess", "A", <<m>>, "REAL") : m \in
-     {MI(<<Sym("i", "INT")>>, <<IntL("5")>>), MI(<<Sym("i", "INT"), Sym("j", "INT")>>, <<IntL("4"), IntL("3")>>),
-      MI(<<Sym("i", "INT"), Sym("j", "INT")>>, <<IntL("1"), IntL("3")>>), MI(<<Sym("i", "INT"), Sym("j", "INT")>>, <<IntL("4"), IntL("1")>>),
-      MI(<<Sym("i", "INT"), IntL("2"), Sym("j", "INT")>>, <<IntL("2"), IntL("3"), IntL("4")>>),
-      MI(<<IntL("0"), Sym("j", "INT")>>, <<IntL("2"), IntL("2")>>)}}
-  \cup {Mk("Add", "", <<Mk("ArrayAccess", "A", <<Sym("q", "INT"), MI(<<Sym("i", "INT"), Sym("j", "INT")>>, <<IntL("2"), IntL("3")>>)>>, "REAL"),
-                         Sym("y", "REAL")>>, "REAL")}
+MI(syms, sizes, strides) ==
+  Mk("MultiIndex", "",
+     <<Mk("Sum", "", [k \in 1..Len(syms) |-> IF strides[k] = "1" THEN syms[k] ELSE Mk("Mul", "", <<IntL(strides[k]), syms[k]>>, "INT")], "INT"),
+       Mk("symbols", "", syms, ""), Mk("sizes", "", [k \in 1..Len(sizes) |-> IntL(sizes[k])], "")>>, "INT")
+MIs ==
+  LET i == Sym("i", "INT")  j == Sym("j", "INT")  k == Sym("k", "INT") IN
+  {MI(<<i>>, <<"5">>, <<"1">>), MI(<<i, j>>, <<"4", "3">>, <<"3", "1">>), MI(<<i, j>>, <<"1", "3">>, <<"3", "1">>),
+   MI(<<i, j>>, <<"4", "1">>, <<"1", "1">>), MI(<<i, j, k>>, <<"2", "3", "4">>, <<"12", "4", "1">>),
+   MI(<<i, IntL("2"), j>>, <<"2", "3", "4">>, <<"12", "4", "1">>), MI(<<IntL("0"), j>>, <<"2", "2">>, <<"2", "1">>)}
+
+\* a MultiIndex as a direct operand of every arithmetic / comparison / conditional / call shape, in every operand
+\* position; the same inside an array subscript; and as a subscript itself
+MIOperandTrees ==
+  LET arith == UNION {{Plug(sh, ty, n, m) : <<n, m>> \in {<<q, mm>> \in (1..Len(sh.args)) \X MIs : sh.args[q] = ty}} :
+                        <<sh, ty>> \in {<<s, t>> \in (Shapes("int") \cup Shapes("num")) \X {"int", "num"} : s \in Shapes(t)}}
+      cmp == UNION {{Plug(sh, "bool", n, m) : <<n, m>> \in {<<q, mm>> \in (1..Len(sh.args)) \X MIs : sh.args[q] = "num"}} : sh \in Shapes("bool")} IN
+  arith \cup cmp
+  \cup {Mk("ArrayAccess", "A", <<t>>, "REAL") : t \in {x \in arith : x.d = "INT"}}
+  \cup {Mk("ArrayAccess", "w", <<Mk("Add", "", <<Mk("Mul", "", <<m, IntL("2")>>, "INT"), IntL("1")>>, "INT")>>, "SCALAR") : m \in MIs}
+  \cup {Mk("ArrayAccess", "A", <<m>>, "REAL") : m \in MIs}
+  \cup {Mk("Add", "", <<Mk("ArrayAccess", "A", <<Sym("q", "INT"), m>>, "REAL"), Sym("y", "REAL")>>, "REAL") : m \in MIs}
 
 \* every math function lnodes can produce (lnodes._ufl_call_lookup), over real and complex arguments where defined
 Fn1 == {"sqrt", "abs", "cos", "sin", "tan", "acos", "asin", "atan", "cosh", "sinh", "tanh", "exp", "ln"}
@@ -422,7 +440,7 @@ MathTrees ==
 Depth == IF "S6_DEPTH" \in DOMAIN IOEnv THEN (IF IOEnv.S6_DEPTH = "3" THEN 3 ELSE 2) ELSE 2
 
 Trees ==
-  UNION {Spine(d, ty) : <<d, ty>> \in (1..Depth) \X {"num", "bool"}} \cup Leaves("num") \cup Pairs \cup Naries \cup CondNests \cup MathTrees
+  UNION {Spine(d, ty) : <<d, ty>> \in (1..Depth) \X {"num", "bool"}} \cup Leaves("num") \cup Pairs \cup Naries \cup CondNests \cup MathTrees \cup MIOperandTrees
 
 ---------------------------------------------------------------------------
 \* design-level round trip for one tree:  Parse(Format(t)) matches Canon(t)
